@@ -147,6 +147,33 @@ int main(int argc, char** argv) {
   rel_cases<double>("dbl", {-inf, -1.5, -0.0, 0.0, 5e-324, 1.0, numeric_limits<double>::max(), inf, nan("")},
       {0, 1, 2, 2, 3, 4, 5, 6, -1});
   rel_cases<float>("flt", {-1.0f, 0.0f, 1.5f, nanf("")}, {0, 1, 2, -1});
+  // predicates that are not bool: anything contextually true must pass, anything false must fail (no narrowing on the way)
+  {
+#define PRED(KIND, VALUE, TRUTH)                                                            \
+  {                                                                                         \
+    vt::J j;                                                                                \
+    j.str("e", "rel").str("op", "expect").str("kind", KIND).num("a", TRUTH).num("b", 0);  \
+    record("expect", j, __LINE__, [&]() { expect(VALUE); }, "!(" #VALUE ")");              \
+    vt::J k;                                                                                \
+    k.str("e", "rel").str("op", "expect").str("kind", KIND "m").num("a", TRUTH).num("b", 0); \
+    record("expect_msg", k, __LINE__, [&]() { expect_msg(VALUE, "custom message"); }, "custom message"); \
+  }
+    double half = 0.5, tiny = 1e-300, zero = 0.0, negfrac = -0.25;
+    float quarter = 0.25f;
+    uint64_t high = 1ULL << 40, top = 1ULL << 63;
+    int64_t neg = -1;
+    int izero = 0;
+    PRED("dblhalf", half, 1)
+    PRED("dbltiny", tiny, 1)
+    PRED("dblneg", negfrac, 1)
+    PRED("fltquarter", quarter, 1)
+    PRED("dblzero", zero, 0)
+    PRED("u64high", high, 1)
+    PRED("u64top", top, 1)
+    PRED("i64neg", neg, 1)
+    PRED("intzero", izero, 0)
+#undef PRED
+  }
   for (int v = 0; v <= 1; v++) {
     vt::J j;
     j.str("e", "rel").str("op", "expect").str("kind", "bool").num("a", v).num("b", 0);
